@@ -39,7 +39,7 @@ TIERS = dict(quick=dict(steps=30, perms=3, gen=dict(max_states=12, max_depth=4, 
 
 
 def plan(tier):
-    return dict(cases=1600 if tier == 'quick' else 20000, shards=16, timeout=900 if tier == 'quick' else 3600)
+    return dict(cases=1600 if tier == 'quick' else 12000, shards=16, timeout=900 if tier == 'quick' else 3600)
 
 
 def make_case(rnd, tier):
@@ -47,6 +47,8 @@ def make_case(rnd, tier):
     mode, _, kw = rnd.choices(MODES, weights=[m[1] for m in MODES])[0]
     g = dict(T['gen'])
     g.update(kw)
+    if rnd.random() < 0.15:
+        g['p_odd_names'] = 1.0       # names that differ by case only, format-significant characters...
     ch = gen_chart(rnd, mode=mode, **g)
     if rnd.random() < 0.25:
         # some guards cannot be evaluated: the step fails, and with the same kind of error whatever the declaration order
